@@ -22,6 +22,8 @@ int aw_tracking = 0, aw_fill_mode = 0, aw_die_entered = 0;
 char aw_die_msg[256];
 /* optional log of request sizes (for recycled-block experiments) */
 size_t aw_sizes[4096]; long aw_nsizes = 0;
+/* ring of the most recent pointers passed to free() / returned by allocation while tracking (for model conformance in FSX) */
+void *aw_freed[64]; long aw_nfreed = 0; void *aw_alloced[64]; long aw_nalloced = 0;
 
 void aw_reset(void) { aw_live = 0; aw_count = 0; aw_fail_at = 0; aw_fill_at = 0; aw_fill_mode = 0; aw_die_entered = 0; aw_failed_site = 0; aw_nsizes = 0; }
 
@@ -40,7 +42,7 @@ static int should_fail(void *site) {
 void *__wrap_malloc(size_t n) {
   if (should_fail(__builtin_return_address(0))) { errno = ENOMEM; return NULL; }
   void *p = __real_malloc(n);
-  if (aw_tracking && p) { aw_live++; if (aw_nsizes < 4096) aw_sizes[aw_nsizes++] = n; fill(p, n, aw_count); }
+  if (aw_tracking && p) { aw_live++; aw_alloced[aw_nalloced++ & 63] = p; if (aw_nsizes < 4096) aw_sizes[aw_nsizes++] = n; fill(p, n, aw_count); }
   return p;
 }
 void *__wrap_calloc(size_t a, size_t b) {
@@ -58,11 +60,11 @@ void *__wrap_realloc(void *q, size_t n) {
 int __wrap_posix_memalign(void **out, size_t al, size_t n) {
   if (should_fail(__builtin_return_address(0))) return ENOMEM;
   int e = __real_posix_memalign(out, al, n);
-  if (aw_tracking && !e && *out) { aw_live++; if (aw_nsizes < 4096) aw_sizes[aw_nsizes++] = n; fill(*out, n, aw_count); }
+  if (aw_tracking && !e && *out) { aw_live++; aw_alloced[aw_nalloced++ & 63] = *out; if (aw_nsizes < 4096) aw_sizes[aw_nsizes++] = n; fill(*out, n, aw_count); }
   return e;
 }
 void __wrap_free(void *p) {
-  if (aw_tracking && p) aw_live--;
+  if (aw_tracking && p) { aw_live--; aw_freed[aw_nfreed++ & 63] = p; }
   __real_free(p);
 }
 void __wrap_m4ri_die(const char *fmt, ...) {
